@@ -417,6 +417,9 @@ func (t TransportLayerCC) Marshal() ([]byte, error) {
 	if t.ReferenceTime >= 1<<24 {
 		return nil, errFieldOutOfRange
 	}
+	if t.MarshalSize() > maxPacketLength {
+		return nil, errPacketTooLong
+	}
 
 	payload := make([]byte, t.MarshalSize()-headerLength)
 	binary.BigEndian.PutUint32(payload, t.SenderSSRC)
@@ -449,8 +452,10 @@ func (t TransportLayerCC) Marshal() ([]byte, error) {
 		}
 	}
 
-	if t.Header.Padding {
-		payload[len(payload)-1] = uint8(t.MarshalSize() - t.packetLen())
+	// the padding count goes into the last padding octet; without padding octets the last
+	// octet belongs to the content and must not be overwritten
+	if padding := t.MarshalSize() - t.packetLen(); t.Header.Padding && padding > 0 {
+		payload[len(payload)-1] = uint8(padding)
 	}
 
 	return append(header, payload...), nil
